@@ -137,17 +137,16 @@ class DatasetRef(object):
         return sa * factor, means * factor, au
 
     def depths(self):
+        """Feature-weighted depth per spike: sum(y * f^2) / sum(f^2), f = max(first PC, 0)."""
         g = self.g
-        ns = len(g.samples)
-        out = np.full(ns, np.nan)
-        F = np.asarray(g.pc_features, dtype=np.float64)  # (n, npcs, nloc)
-        for s in range(ns):
-            f = np.maximum(np.asarray(g.pc_features[s, 0, :]), 0)
-            f = (f ** 2).astype(np.float64)
-            ch = g.pc_ind[g.stemplates[s]]
-            den = f.sum()
-            if den > 0:
-                out[s] = (g.pos[ch, 1] * f).sum() / den
+        f = np.maximum(np.asarray(g.pc_features[:, 0, :]), 0)
+        f = (f ** 2).astype(np.float64)                      # (ns, nloc)
+        ch = np.asarray(g.pc_ind)[np.asarray(g.stemplates)]  # (ns, nloc)
+        y = g.pos[:, 1][ch]
+        den = f.sum(axis=1)
+        out = np.full(len(den), np.nan)
+        ok = den > 0
+        out[ok] = (y[ok] * f[ok]).sum(axis=1) / den[ok]
         return out
 
     # ---- features (C06) --------------------------------------------------------------------
